@@ -7,7 +7,7 @@ CONSTANTS
  MaxChunks = 2
  First = {}
  DevF3 = TRUE
- DevMolsPerFile = TRUE
+ DevMolsPerFile = FALSE
  DevDirKeep = FALSE
  DevElseKeep = FALSE
 CHECK_DEADLOCK FALSE
